@@ -6,11 +6,12 @@ Import ListNotations.
 Definition vq_is_zero (u : VQ) : bool :=
   Qeq_bool (vx u) 0 && Qeq_bool (vy u) 0 && Qeq_bool (vz u) 0.
 
-(** depth >= 0 and (| |u|^2 - 1 | <= eps, or depth = 0 and u = 0) *)
-Definition dir_ok (t : Q) (u : VQ) (eps : Q) : bool :=
+(** depth >= 0 and (| |u|^2 - 1 | <= eps, or depth <= tiny and u = 0); the harness passes
+    tiny = 2^-52, one machine epsilon: "the depth is 0" up to the rounding of a single operation *)
+Definition dir_ok (t : Q) (u : VQ) (eps tiny : Q) : bool :=
   Qle_bool 0 t &&
   ((Qle_bool (qnorm2 u - 1) eps && Qle_bool (1 - qnorm2 u) eps && Qle_bool eps 1) ||
-   (Qeq_bool t 0 && vq_is_zero u)).
+   (Qle_bool t tiny && vq_is_zero u)).
 
 Lemma vq_is_zero_sound u : vq_is_zero u = true -> v2r u = vzero.
 Proof.
@@ -19,10 +20,10 @@ Proof.
   unfold v2r, vzero. cbn. rewrite H1, H2, H3. reflexivity.
 Qed.
 
-Theorem dir_ok_sound t u eps :
-  dir_ok t u eps = true ->
+Theorem dir_ok_sound t u eps tiny :
+  dir_ok t u eps tiny = true ->
   (0 <= Q2R t)%R /\
-  ((Rabs (norm (v2r u) - 1) <= Q2R eps)%R \/ (Q2R t = 0%R /\ v2r u = vzero)).
+  ((Rabs (norm (v2r u) - 1) <= Q2R eps)%R \/ ((Q2R t <= Q2R tiny)%R /\ v2r u = vzero)).
 Proof.
   unfold dir_ok. intros H. apply andb_true_iff in H as (H0 & H).
   apply Qle_bool_R in H0. rewrite Q2R_0 in H0. split; auto.
@@ -32,22 +33,22 @@ Proof.
     pose proof (norm_nonneg (v2r u)) as Hn. pose proof (norm_sq (v2r u)) as Hs.
     set (x := norm (v2r u)) in *. clearbody x.
     unfold Rabs. destruct (Rcase_abs (x - 1)); nra.
-  - right. apply andb_true_iff in H as (H1 & H2). apply Qeq_bool_eq in H1. apply Qeq_eqR in H1.
-    rewrite Q2R_0 in H1. split; auto. apply vq_is_zero_sound; auto.
+  - right. apply andb_true_iff in H as (H1 & H2). apply Qle_bool_R in H1.
+    split; auto. apply vq_is_zero_sound; auto.
 Qed.
 
 (** the result (t, u, pos) of a penetration query: n1 witnesses the residual overlap after moving
     B by t*u, n2 witnesses depth <= t + tol, wa / wb witness pos in A / B *)
-Definition pen_cert (A B : sh) (t : Q) (u pos n1 n2 : VQ) (wa wb : wit) (tol eps : Q) : bool :=
-  dir_ok t u eps &&
+Definition pen_cert (A B : sh) (t : Q) (u pos n1 n2 : VQ) (wa wb : wit) (tol eps tiny : Q) : bool :=
+  dir_ok t u eps tiny &&
   overlap_le_cert A (shift (qscale t u) B) n1 tol &&
   overlap_le_cert A B n2 (t + tol) &&
   in_shape_tol A wa pos tol && in_shape_tol B wb pos tol.
 
-Theorem pen_cert_sound A B t u pos n1 n2 wa wb tol eps :
-  pen_cert A B t u pos n1 n2 wa wb tol eps = true ->
+Theorem pen_cert_sound A B t u pos n1 n2 wa wb tol eps tiny :
+  pen_cert A B t u pos n1 n2 wa wb tol eps tiny = true ->
   (0 <= Q2R t)%R /\
-  ((Rabs (norm (v2r u) - 1) <= Q2R eps)%R \/ (Q2R t = 0%R /\ v2r u = vzero)) /\
+  ((Rabs (norm (v2r u) - 1) <= Q2R eps)%R \/ ((Q2R t <= Q2R tiny)%R /\ v2r u = vzero)) /\
   depth_le (sem A) (translate (vscale (Q2R t) (v2r u)) (sem B)) (Q2R tol) /\
   depth_le (sem A) (sem B) (Q2R t + Q2R tol) /\
   (exists qa, sem A qa /\ (norm (vsub (v2r pos) qa) <= Q2R tol)%R) /\
@@ -56,7 +57,7 @@ Proof.
   unfold pen_cert. intros H.
   apply andb_true_iff in H as (H & H5). apply andb_true_iff in H as (H & H4).
   apply andb_true_iff in H as (H & H3). apply andb_true_iff in H as (H1 & H2).
-  destruct (dir_ok_sound _ _ _ H1) as (D1 & D2).
+  destruct (dir_ok_sound _ _ _ _ H1) as (D1 & D2).
   split; auto. split; auto. split; [|split; [|split]].
   - pose proof (overlap_le_depth_le _ _ _ _ H2) as (m & Hm & HD).
     exists m. split; auto. intros a b Ha Hb. apply HD; auto.
